@@ -1,6 +1,7 @@
 import SqlgrepModel.Lemmas.NoPanic
 import SqlgrepModel.Lemmas.NoPanicEngine
 import SqlgrepModel.Props.C03
+import SqlgrepModel.Lemmas.RowIndex
 /-
 C09 — execution is total: results or an error message, never a crash, never a silently wrapped number.
 
@@ -159,6 +160,31 @@ theorem step_never_panics (O : Oracles) (qy : Query) (idx : JoinIndex) (w : Bool
 theorem step_keeps_invariant (O : Oracles) (qy : Query) (idx : JoinIndex) (w : Bool) (es es' : EngineState) (l : Line)
     (lo : LineOut) (h : Sqlgrep.NoPanicEngine.EInv qy es) (hx : executeLine O qy idx w es l = .ok (es', lo)) :
     Sqlgrep.NoPanicEngine.EInv qy es' := Sqlgrep.NoPanicEngine.executeLine_inv hx h
+
+/-! ### `row[index]` sites
+
+The engine indexes the extracted row of a line by the position of a column name among the table's names (join keys,
+`create_columns_mapping`). The engine model reads rows with `getD … NULL` (`Model/Engine.lean` `lineEnvs`, `loadJoin`,
+`columnsMapping`), which would hide an out-of-range index. It cannot occur: a lowered CREATE TABLE has one name per
+column, the engine looks only at admitted rows (`executeLine` / `loadJoin` test `any_result` first), an admitted row has
+one value per column, and the position of a name is a position of the row. -/
+
+/-- every `row[index]` site of the engine is in range on the rows the engine is given, and the model's default is never
+taken there -/
+theorem row_index_sites_in_range (rv : List Char → Bool) (c : PCreate) (n : String) (d : Extract.TableDef)
+    (names : List String) (hlow : Lower.lowerCreate rv c = .ok (.createTable n d names))
+    (o : Extract.Oracles) (lo : Extract.LineOracle) (hadm : Extract.anyResult (Extract.extractRow o d lo) = true)
+    (col : String) (ki : Nat) (hk : indexOf? names col = some ki) :
+    ∃ v, (Extract.extractRow o d lo)[ki]? = some v ∧ (Extract.extractRow o d lo).getD ki .null = v :=
+  row_index_in_range names _
+    ((admitted_row_full o d lo hadm).trans (lowerCreate_aligned rv c n d names hlow).symm) col ki hk
+
+/-- a row that is not admitted is never indexed: the engines return before looking at it -/
+theorem not_admitted_row_is_not_indexed (O : Oracles) (qy : Query) (idx : JoinIndex) (w : Bool) (es : EngineState)
+    (l : Line) (h : anyResult l.row = false) :
+    ∃ out, executeLine O qy idx w es l = .ok out := by
+  unfold executeLine
+  split <;> simp [h]
 
 example (qy : Query) : Sqlgrep.NoPanicEngine.EInv qy {} := Sqlgrep.NoPanicEngine.EInv.init qy
 
